@@ -27,10 +27,17 @@ import (
 // RaceRun is the entry point inside the race-instrumented binary: kmc racerun <reps>.
 func RaceRun(args []string) int {
 	reps, _ := strconv.Atoi(args[0])
+	filter := ""
+	if len(args) > 1 {
+		filter = args[1]
+	}
 	drv := core.NewDriver("race")
 	defer drv.Close()
 	n := 0
 	for _, sc := range allScenarios(true) {
+		if !strings.HasPrefix(sc.Name, filter) {
+			continue
+		}
 		drv.Files(sc.Files)
 		for i := 0; i < reps; i++ {
 			// a free run normally takes milliseconds; a run that is still going after
@@ -50,6 +57,10 @@ func RaceRun(args []string) int {
 			}
 		}
 		fmt.Fprintf(os.Stderr, "RACERUN-SCENARIO %s\n", sc.Name)
+	}
+	if filter != "" {
+		fmt.Fprintf(os.Stderr, "RACERUN-DONE executions=%d\n", n)
+		return 0
 	}
 	// registry programs with real goroutines
 	names := []string{"Assets:A:B", "Assets:A", "Assets:A:C", "Expenses:X:Y", "Expenses:X"}
@@ -79,13 +90,13 @@ func RaceRun(args []string) int {
 var reFrame = regexp.MustCompile(`(?m)^  (github\.com/sboehler/knut/[^\s(]+)`)
 
 // raceTier runs the race binary and turns every distinct report into a violation.
-func raceTier(e *core.Env, reps int) {
+func raceTier(e *core.Env, reps int, prop, filter string) {
 	bin := filepath.Join(core.Root, ".cache", "bin", "kmc-race")
 	if _, err := os.Stat(bin); err != nil {
 		e.EngineError("race binary missing: %v", err)
 		return
 	}
-	cmd := exec.Command(bin, "racerun", strconv.Itoa(reps))
+	cmd := exec.Command(bin, "racerun", strconv.Itoa(reps), filter)
 	cmd.Env = append(os.Environ(), "GORACE=halt_on_error=0 exitcode=0", "GOMAXPROCS=8")
 	var stderr bytes.Buffer
 	cmd.Stderr = &stderr
@@ -96,7 +107,7 @@ func raceTier(e *core.Env, reps int) {
 	}
 	out := stderr.String()
 	if hm := regexp.MustCompile(`RACERUN-HANG scenario=(\S+)`).FindStringSubmatch(out); hm != nil {
-		e.Violation("C19:hang-free-running:"+scenarioClass(hm[1]), "the command did not terminate within 90 s when run free on the real Go runtime (normal: milliseconds); scenario "+hm[1],
+		e.Violation(prop+":hang-free-running:"+scenarioClass(hm[1]), "the command did not terminate within 90 s when run free on the real Go runtime (normal: milliseconds); scenario "+hm[1],
 			map[string]string{"scenario": hm[1]}, nil)
 		return
 	}
@@ -146,11 +157,11 @@ func raceTier(e *core.Env, reps int) {
 	}
 	sort.Strings(keys)
 	for _, k := range keys {
-		e.Violation("C19:data-race:"+k, "the race detector reports conflicting unsynchronised accesses (scenario "+scenarioOf[k]+")\n"+clip(seen[k], 3000),
+		e.Violation(prop+":data-race:"+k, "the race detector reports conflicting unsynchronised accesses (scenario "+scenarioOf[k]+")\n"+clip(seen[k], 3000),
 			map[string]string{"scenario": scenarioOf[k], "frames": k}, nil)
 	}
 	if strings.Contains(out, "RACERUN-PANIC") {
-		e.Violation("C19:panic-free-running", tailStr(out, 20), map[string]string{}, nil)
+		e.Violation(prop+":panic-free-running", tailStr(out, 20), map[string]string{}, nil)
 	}
 }
 
